@@ -22,7 +22,7 @@ import (
 type c07Node struct {
 	name     string
 	latency  time.Duration
-	outcome  int // 0 valid, 1 error, 2 zero fee recipient
+	outcome  int // 0 valid, 1 error, 2 zero fee recipient, 3 proposal with its data missing
 	proposal *api.VersionedProposal
 	calls    int
 }
@@ -94,7 +94,7 @@ func VerifC07_ProposalBest() {
 		nd := &c07Node{name: []string{"node-a", "node-b"}[i]}
 		nd.latency = time.Duration(vnd.I64("latency"))
 		vnd.Assume(nd.latency >= 0 && nd.latency <= 120000)
-		nd.outcome = vnd.Choose("outcome", 3)
+		nd.outcome = vnd.Choose("outcome", 4)
 		// node-a: an ordinary or a high value; node-b: any of the four
 		vals := c07Values
 		if i == 0 {
@@ -113,6 +113,15 @@ func VerifC07_ProposalBest() {
 		}
 		nd.proposal = &api.VersionedProposal{Version: spec.DataVersionCapella, ConsensusValue: cons, ExecutionValue: exec,
 			Capella: &capella.BeaconBlock{Slot: 5, ProposerIndex: phase0.ValidatorIndex(i), Body: &capella.BeaconBlockBody{ETH1Data: &phase0.ETH1Data{}, SyncAggregate: nil, ExecutionPayload: &capella.ExecutionPayload{FeeRecipient: fee}}}}
+		if nd.outcome == 3 {
+			// a hollow answer: version and values stated, the block, its body or its execution payload absent
+			// (node-a: no block at all; node-b: a block whose body has no execution payload)
+			if i == 0 {
+				nd.proposal.Capella = nil
+			} else {
+				nd.proposal.Capella.Body.ExecutionPayload = nil
+			}
+		}
 		nodes[i] = nd
 		providers[nd.name] = nd
 	}
